@@ -3,6 +3,8 @@
 package vsync
 
 import (
+	"fmt"
+	"reflect"
 	"runtime"
 	"strconv"
 	"strings"
@@ -272,6 +274,47 @@ type Pool struct {
 	o     vsched.Obj
 	items []interface{}
 	init  bool
+	// monitor mode outside an exploration: the pool keeps its objects itself (a real sync.Pool
+	// may drop them at a collection, after which their addresses can be reused and identity
+	// would mean nothing)
+	mu   sync.Mutex
+	kept []interface{}
+}
+
+// DoublePut, when set, turns on the pool ownership monitor: it is called (with the dynamic type
+// of the object) when an object that is already in a pool is put into the same pool again - the
+// pool would hand the one object to two owners. Checks that use it report it as a violation of
+// their property (the two owners corrupt each other's state).
+var DoublePut func(typ string)
+
+func identity(x interface{}) (uintptr, bool) {
+	if x == nil {
+		return 0, false
+	}
+	v := reflect.ValueOf(x)
+	switch v.Kind() {
+	case reflect.Ptr, reflect.UnsafePointer, reflect.Map, reflect.Chan, reflect.Func:
+		return v.Pointer(), true
+	case reflect.Slice:
+		if v.Cap() == 0 {
+			return 0, false
+		}
+		return v.Pointer(), true
+	}
+	return 0, false
+}
+
+func pooledAlready(items []interface{}, x interface{}) bool {
+	id, ok := identity(x)
+	if !ok {
+		return false
+	}
+	for _, y := range items {
+		if yid, ok := identity(y); ok && yid == id && reflect.TypeOf(x) == reflect.TypeOf(y) {
+			return true
+		}
+	}
+	return false
 }
 
 func (p *Pool) syncNew() {
@@ -283,6 +326,20 @@ func (p *Pool) syncNew() {
 
 func (p *Pool) Get() interface{} {
 	if !vsched.Active() {
+		if DoublePut != nil {
+			p.mu.Lock()
+			if n := len(p.kept); n > 0 {
+				v := p.kept[n-1]
+				p.kept = p.kept[:n-1]
+				p.mu.Unlock()
+				return v
+			}
+			p.mu.Unlock()
+			if p.New != nil {
+				return p.New()
+			}
+			return nil
+		}
 		p.syncNew()
 		return p.n.Get()
 	}
@@ -316,6 +373,18 @@ func (p *Pool) Put(x interface{}) {
 		if vsched.Aborting() {
 			return
 		}
+		if DoublePut != nil {
+			p.mu.Lock()
+			dup := pooledAlready(p.kept, x)
+			if !dup && len(p.kept) < 4096 {
+				p.kept = append(p.kept, x)
+			}
+			p.mu.Unlock()
+			if dup {
+				DoublePut(fmt.Sprintf("%T", x))
+			}
+			return
+		}
 		p.syncNew()
 		p.n.Put(x)
 		return
@@ -324,6 +393,9 @@ func (p *Pool) Put(x interface{}) {
 		p.items = nil
 	}
 	vsched.Point()
+	if DoublePut != nil && pooledAlready(p.items, x) {
+		DoublePut(fmt.Sprintf("%T", x))
+	}
 	p.items = append(p.items, x)
 	vsched.Record(&p.o, kPool, true, 3)
 	// a point after the hand-back: "free, then keep using the buffer" must be separable from
